@@ -68,6 +68,57 @@ def sym_unpack(fmt, data):
     return decode_be(fmt, data)
 
 
+_ch_pack = None
+
+
+def encode_be(fmt, args):
+    """Pure-Python big-endian struct.pack for the formats ZODB uses."""
+    out = b''
+    i = 0
+    for n, c in _tok.findall(fmt[1:]):
+        if c == 's':
+            k = int(n or 1)
+            v = args[i]
+            i += 1
+            if not isinstance(v, (bytes, bytearray)):
+                raise _struct.error("argument for 's' must be a bytes object")
+            if len(v) >= k:
+                out = out + v[:k]
+            else:
+                out = out + v + b'\0' * (k - len(v))
+        elif c == 'c':
+            for _ in range(int(n or 1)):
+                v = args[i]
+                i += 1
+                if not isinstance(v, (bytes, bytearray)) or len(v) != 1:
+                    raise _struct.error('char format requires a bytes object of length 1')
+                out = out + v
+        else:
+            for _ in range(int(n or 1)):
+                v = args[i]
+                i += 1
+                k = _size[c]
+                if c in _signed:
+                    if not (-(1 << (8 * k - 1)) <= v < (1 << (8 * k - 1))):
+                        raise _struct.error('argument out of range')
+                    out = out + v.to_bytes(k, 'big', signed=True)
+                else:
+                    if not (0 <= v < (1 << (8 * k))):
+                        raise _struct.error('argument out of range')
+                    out = out + v.to_bytes(k, 'big')
+    if i != len(args):
+        raise _struct.error('pack expected %d items for packing (got %d)' % (i, len(args)))
+    return out
+
+
+def sym_pack(fmt, *args):
+    if not isinstance(fmt, str) or not fmt.startswith('>') or not any(_is_sym(a) for a in args):
+        if any(_is_sym(a) for a in args) and _ch_pack is not None:
+            return _ch_pack(fmt, *args)
+        return _real_pack(fmt, *args)
+    return encode_be(fmt, args)
+
+
 def _p64(v):
     try:
         return _struct.pack('>Q', v)
@@ -101,5 +152,8 @@ def install():
     global _ch_unpack
     _ch_unpack = cc._PATCH_REGISTRATIONS.get(_struct.unpack)
     cc._PATCH_REGISTRATIONS[_struct.unpack] = sym_unpack
+    global _ch_pack
+    _ch_pack = cc._PATCH_REGISTRATIONS.get(_struct.pack)
+    cc._PATCH_REGISTRATIONS[_struct.pack] = sym_pack
     register_patch(U.p64, _p64)
     register_patch(U.u64, _u64)
